@@ -104,6 +104,10 @@ def conc_call(op, e, v, rng, encs=None, invalid=False, simple=False):
     enc = None if e == 0 else encs[(e - 1) % len(encs)]
     if op in ('change', 'file'):
         kw = {'encoding': enc} if (enc is not None or rng.random() < 0.5) else {}
+        if v and rng.random() < 0.06:
+            # a name that can stand as an option value but names no codec: the container is still accepted (N-choice),
+            # only text that would inherit it is refused
+            kw = {'encoding': rng.choice(['utf-9', 'no-such-codec', 'x.y/z', 'latin-99'])}
     elif op == 'preamble':
         kw = {'text': TEXTS[0] if simple or v == 0 else rng.choice(TEXTS)}
         if enc is not None:
